@@ -161,7 +161,7 @@ pub fn run_interp_for_jit(code: [u8; 3], r0: &Regs, cycles0: u32, _rd: [u8; 4], 
   let mut m = native::areas();
   let mut regs = to_registers(r0, cycles0);
   if r0.pc > 0x7ff0 || !native::place(&mut m, r0.pc, code, expect) { return Run { regs, status: 0, brk: false, returned: false, bus_ok: true, replayable: false }; }
-  if !is_end { native::poke(&mut m, r0.pc.wrapping_add(expect.len), 0x76); }
+  if !is_end { native::poke_code(&mut m, r0.pc.wrapping_add(expect.len), 0x76); }
   let status = crate::interpreter::run_code_block(&mut regs, &mut m as *mut MemoryAreas);
   core::mem::forget(m);
   Run { regs, status, brk: true, returned: true, bus_ok: true, replayable: true }
@@ -172,15 +172,22 @@ pub mod native {
   use super::*;
   use crate::cart::Header;
   pub fn areas() -> MemoryAreas {
-    // ROM-only, 32 KiB ROM, 8 KiB cartridge RAM, through the real loader on a real temporary file
-    let h = Header::verif_with(0, 0, 2);
-    crate::mem::verif_areas(&h)
+    // MBC3, 4 ROM banks (64 KiB), 8 KiB cartridge RAM, through the real loader on a real temporary file.
+    // Bank 3 is the bank mapped while the instruction executes; bank 2 is mapped while the recompiler TRANSLATES it
+    // and holds the same code bytes but complemented data, so a translation that bakes in data read at translation
+    // time (instead of reading it when the block runs) is exposed natively.
+    let h = Header::verif_with(0x11, 1, 2);
+    let mut m = crate::mem::verif_areas(&h);
+    map_bank(&mut m, 3);
+    m
   }
+  pub fn map_bank(m: &mut MemoryAreas, bank: u8) { crate::mem::memory_write_byte(m as *mut MemoryAreas, 0x2000, bank); }
   /// Direct poke into the backing buffer of a bus address; false where nothing writable backs it.
   pub fn poke(m: &mut MemoryAreas, addr: u16, v: u8) -> bool {
     let a = addr as usize;
     match addr {
-      0x0000..=0x7fff => { m.rom[a] = v; true }
+      0x0000..=0x3fff => { m.rom[a] = v; true }
+      0x4000..=0x7fff => { m.rom[3 * 0x4000 + (a & 0x3fff)] = v; m.rom[2 * 0x4000 + (a & 0x3fff)] = !v; true }
       0x8000..=0x9fff => { m.video_ram[a - 0x8000] = v; true }
       0xa000..=0xbfff => { m.cart_ram[a - 0xa000] = v; true }
       0xc000..=0xdfff => { m.work_ram[a - 0xc000] = v; true }
@@ -188,6 +195,12 @@ pub mod native {
       0xff80..=0xfffe => { m.high_ram[a - 0xff80] = v; true }
       _ => false,
     }
+  }
+  /// Instruction bytes: identical in the translation-time bank and the execution-time bank.
+  pub fn poke_code(m: &mut MemoryAreas, addr: u16, v: u8) {
+    let a = addr as usize;
+    if addr >= 0x4000 && addr <= 0x7fff { m.rom[3 * 0x4000 + (a & 0x3fff)] = v; m.rom[2 * 0x4000 + (a & 0x3fff)] = v; }
+    else { poke(m, addr, v); }
   }
   pub fn place(m: &mut MemoryAreas, pc: u16, code: [u8; 3], expect: &Out) -> bool {
     let exec = matches!(pc, 0x0000..=0x7ffc | 0xc000..=0xdffc | 0xff80..=0xfffc);
@@ -200,7 +213,7 @@ pub mod native {
       i += 1;
     }
     let mut k = 0;
-    while k < 3 { poke(m, pc.wrapping_add(k as u16), code[k]); k += 1; }
+    while k < 3 { poke_code(m, pc.wrapping_add(k as u16), code[k]); k += 1; }
     if !ok { eprintln!("VERIF-NOREPLAY a read address of the counterexample is not backed by pokeable memory"); }
     ok
   }
